@@ -117,6 +117,25 @@ def direct_calls(ctx, kind=None, float_ks=False):
     XX0 = (1 - Y0)[:, None] * (1 - Y0)[None, :]
     out.append(("SIS_pair_based(XY0,XX0)", EoN.SIS_pair_based, (Gs, tau, gamma), dict(t, Y0=Y0.copy(), nodelist=nl, XY0=XY0.copy(), XX0=XX0.copy())))
     out.append(("SIR_pair_based(XY0,XX0)", EoN.SIR_pair_based, (Gs, tau, gamma), dict(t, Y0=Y0.copy(), nodelist=nl, XY0=XY0.copy(), XX0=XX0.copy())))
+    # the dict-taking model functions (degree distribution Pk, degree correlations Pnk) with the dicts the library's own
+    # helpers produce; Pnk also in the legal "all rows are one object" form (uncorrelated mixing)
+    Gd, _ = odes.graph(ctx.rng, kind=kind)
+    if Gd.number_of_edges() > 0:
+        Pk, Pnk = an.get_Pk(Gd), an.get_Pnk(Gd)
+        N = Gd.order()
+        rho = 0.1
+        out.append(("EBCM_pref_mix", EoN.EBCM_pref_mix, (N, dict(Pk), {a: dict(r) for a, r in Pnk.items()}, tau, gamma), dict(rho=rho, tmin=0, tmax=2, tcount=5)))
+        out.append(("EBCM_pref_mix_discrete", EoN.EBCM_pref_mix_discrete, (N, dict(Pk), {a: dict(r) for a, r in Pnk.items()}, 0.5), dict(rho=rho, tmin=0, tmax=4)))
+        kave = sum(k_ * v for k_, v in Pk.items())
+        if kave > 0:
+            row = {k_: k_ * v / kave for k_, v in Pk.items()}
+            shared = {k_: row for k_ in Pk}
+            out.append(("EBCM_pref_mix(shared row)", EoN.EBCM_pref_mix, (N, dict(Pk), shared, tau, gamma), dict(rho=rho, tmin=0, tmax=2, tcount=5)))
+        out.append(("Attack_rate_discrete", EoN.Attack_rate_discrete, (dict(Pk), 0.5), dict(rho=rho)))
+        out.append(("Attack_rate_cts_time", EoN.Attack_rate_cts_time, (dict(Pk), tau, gamma), dict(rho=rho)))
+        out.append(("Epi_Prob_discrete", EoN.Epi_Prob_discrete, (dict(Pk), 0.5), {}))
+        # (Epi_Prob_cts_time is not exercised: on the pinned tree it raises on every input — `kave` undefined, psiPrime
+        #  applied to an array — which no listed property is about; see DESIGN §6)
     return out
 
 
